@@ -140,6 +140,12 @@ impl Root {
 
         NodeHandle(current, self).dispose_children(); // Destroy anything created in a previous update.
 
+        // One of the cleanups may have disposed this node (e.g. by disposing its owner): there is
+        // nothing left to update, and the callback must not run in a scope that no longer exists.
+        if self.nodes.borrow().get(current).is_none() {
+            return;
+        }
+
         let prev = self.current_node.replace(current);
         let (changed, tracker) = self.tracked_scope(|| callback(&mut value));
         self.current_node.set(prev);
